@@ -49,6 +49,24 @@ def check_partition(case):
                 alph_seen = alph
             elif alph != alph_seen:
                 v("alphabet-unstable", "size %d: returned alphabet differs between calls: %r vs %r" % (size, alph, alph_seen))
+    # the same size in other spellings (numpy integer, integral float, digit string - the error message of the package itself
+    # says a string convertible to an integer is fine) must give the same reduction
+    import numpy as _np
+    whole = "ACDEFGHIKLMNPQRSTVWY"
+    try:
+        base = red(whole, alphabetSize=size)
+        for spelled in (_np.int64(size), _np.int32(size), float(size), str(size), " %d " % size):
+            calls += 1
+            try:
+                r2 = red(whole, alphabetSize=spelled)
+            except Exception as e:  # noqa
+                v("size-spelling-rejected", "alphabetSize=%r (for %d) raised %r" % (spelled, size, e), spelled=repr(spelled))
+                continue
+            if r2[0] != base[0] or sorted(r2[1]) != sorted(base[1]):
+                v("size-spelling-changes-result", "alphabetSize=%r gives %s, alphabetSize=%d gives %s" % (spelled, r2[0], size, base[0]),
+                  spelled=repr(spelled))
+    except Exception as e:  # noqa
+        v("exception", "size %d on the 20-letter word raised %r" % (size, e))
     reps = set()
     for g, rs in rep_of_group.items():
         if len(rs) != 1:
@@ -181,6 +199,8 @@ def check_user(case):
     # the same on ONE live object: valid alphabets, faulty ones and predefined sizes interleaved
     from localcider.sequenceParameters import SequenceParameters as SP
     o = SP(seq)
+    from ..apivec import api_vector
+    api_vector(o)                 # every other read-only analysis first (history only; results not judged here)
     vas = list(valid_user_alphabets().items())
     for rnd in range(2):
         for i, (name, ua) in enumerate(vas if rnd == 0 else list(reversed(vas))):
